@@ -149,6 +149,16 @@ def _ite(c, a, b):
     return z3.If(c, a, b)
 
 
+def _dotted(node):
+    parts = []
+    while isinstance(node, ast.Attribute):
+        parts.append(node.attr)
+        node = node.value
+    if not isinstance(node, ast.Name):
+        return None
+    return '.'.join([node.id] + parts[::-1])
+
+
 class _Tr:
     def __init__(self, hooks):
         self.hooks = hooks
@@ -164,9 +174,9 @@ class _Tr:
             if node.id not in env:
                 raise Unsupported(f'unknown name {node.id}')
             return env[node.id]
-        if isinstance(node, ast.Attribute) and isinstance(node.value, ast.Name):
-            key = f'{node.value.id}.{node.attr}'        # self.prefix, handler.interval, ...: bound by the caller
-            if key not in env:
+        if isinstance(node, ast.Attribute):
+            key = _dotted(node)                          # self.prefix, handler.interval, settings.peering.lifetime: bound by the caller
+            if key is None or key not in env:
                 raise Unsupported(f'unknown attribute {key}')
             return env[key]
         if isinstance(node, ast.JoinedStr):
@@ -299,6 +309,8 @@ class _Tr:
                 if name in self.hooks:
                     return self.hooks[name](self, *args)
                 raise Unsupported(f'no model for self.{name}()')
+            if isinstance(node.func, ast.Attribute) and _dotted(node.func) in self.hooks:
+                return self.hooks[_dotted(node.func)](self, *args)
             raise Unsupported('call')
         raise Unsupported(type(node).__name__)
 
